@@ -42,7 +42,7 @@ func C10(c *core.Ctx) {
 		"refs by the ref positions of the abstract-interpretation families when those checks are present), symlink/extension probing, type reuse via cmp.Equal."
 	c.Trust("filepath.Join/Dir/EvalSymlinks behave as documented")
 	a := engb.New(c.Prog)
-	emit(c, a.Memo("(*pkg/schemas.CachedLoader).Load"))
+	ruleMemo(c) // A-MEMO (semantic); the SSA shape rule B-MEMO fired on an equivalent rewrite of the memo table and was retired
 	emit(c, a.Cycle())
 	emit(c, a.ParentPath())
 	emit(c, a.RefCacheScope())
